@@ -399,7 +399,14 @@ pub fn make(kind: Kind_, env: &Env, rng: &mut Rng) -> Box<dyn DynOp> {
             })
         }
         Write => fut_op(fd.write(payload(rng, BUF_LEN)), map_count),
-        WriteStatic => fut_op(fd.write("static payload that is forty-eight bytes long!!!"), map_count),
+        WriteStatic => {
+            let payload: &'static str = "static payload that is forty-eight bytes long!!!";
+            // Under Miri the simulated kernel can only turn the address in the
+            // submission back into a pointer if the provenance was exposed (heap
+            // blocks are exposed by the allocator monitor, statics are not).
+            let _ = payload.as_ptr().expose_provenance();
+            fut_op(fd.write(payload), map_count)
+        }
         WriteArc => {
             let a: Arc<[u8]> = Arc::from(payload(rng, BUF_LEN).into_boxed_slice());
             fut_op(fd.write(a).at(rng.below(1 << 33)), map_count)
